@@ -168,11 +168,29 @@ CollapseWs(cs) ==
                  LAMBDA c : c # 0)
 StripTags(cs) == CollapseWs(DropTags(cs))
 
-\* urlencode of an ASCII string: unreserved characters and "/" stay, the rest is %XX
+\* urlencode: the text is encoded as UTF-8; unreserved ASCII characters (and "/" in
+\* the path form) stay, every other byte is written as percent-XX.  Code points >= 128 are
+\* never "safe", whatever their Unicode category.
 HexD(n) == IF n < 10 THEN 48 + n ELSE 55 + n                    \* upper-case hex
-UrlSafeC(c) == IsAlphaC(c) \/ IsDigitC(c) \/ c \in {cUS, cDOT, cMINUS, 126, 47}
+Utf8(c) ==
+    IF c < 128 THEN <<c>>
+    ELSE IF c < 2048 THEN <<192 + (c \div 64), 128 + (c % 64)>>
+    ELSE IF c < 65536 THEN <<224 + (c \div 4096), 128 + ((c \div 64) % 64), 128 + (c % 64)>>
+    ELSE <<240 + (c \div 262144), 128 + ((c \div 4096) % 64), 128 + ((c \div 64) % 64), 128 + (c % 64)>>
+PctBytes(bs) == Flatten([k \in 1..Len(bs) |-> <<cPCT, HexD(bs[k] \div 16), HexD(bs[k] % 16)>>])
+UrlUnreserved(c) == IsAlphaC(c) \/ IsDigitC(c) \/ c \in {cUS, cDOT, cMINUS, 126}
+UrlSafeC(c) == UrlUnreserved(c) \/ c = 47
 UrlQuote(cs) == Flatten([k \in 1..Len(cs) |->
-                    IF UrlSafeC(cs[k]) THEN <<cs[k]>> ELSE <<cPCT, HexD(cs[k] \div 16), HexD(cs[k] % 16)>>])
+                    IF UrlSafeC(cs[k]) THEN <<cs[k]>> ELSE PctBytes(Utf8(cs[k]))])
+\* query-string form: "/" is quoted too and a blank becomes "+"
+UrlQuoteQS(cs) == Flatten([k \in 1..Len(cs) |->
+                    IF UrlUnreserved(cs[k]) THEN <<cs[k]>>
+                    ELSE IF cs[k] = cSP THEN <<cPLUS>> ELSE PctBytes(Utf8(cs[k]))])
+\* a mapping / sequence of pairs: key=value joined by "&"
+UrlEncodePairs(ps) ==
+    JoinSeqs([k \in 1..Len(ps) |-> UrlQuoteQS(StrOf(ps[k][1])) \o <<61>> \o UrlQuoteQS(StrOf(ps[k][2]))], <<cAMP>>)
+\* the clause "nothing but unreserved ASCII, / + = & and percent-XX reaches a URL"
+UrlClean(out) == \A k \in 1..Len(out) : UrlSafeC(out[k]) \/ out[k] \in {cPCT, cPLUS, 61, cAMP}
 
 (* ------------------------------------------------------------ int / float *)
 \* Value classes (the harness generates one or more concrete values per class):
